@@ -128,6 +128,23 @@ class G16:
                 if ctx['loop'] and r.random() < 0.4:
                     handler.append(r.choice([('cont',), ('break',)]))
                 out.append(try_(block(*body), kind, block(*handler)))
+            elif c == 9 and ctx['you'] and r.random() < 0.6:
+                # retry loop: the body never completes normally; its only continue is in the handler
+                self.need_pick = True
+                k = self.nm('n')
+                rv = None if ctx['ret'] == 'empty' else V(k)
+                guard = if_(bin_('>=', V(k), I(r.randrange(2, 5))), block(self.mark(), ret(rv)))
+                if r.random() < 0.5:
+                    loop = while_(B(True), aug('+', k, I(1)), guard,
+                                  try_(block(aug('+', 'z', call('!pick', V('z'), V(k))), self.mark(), ret(rv)),
+                                       r.choice(('stop', 'undo')), block(self.mark(), ('cont',))))
+                else:
+                    # the try falls through when it does not defeat; the body then ends in a return
+                    loop = while_(B(True), aug('+', k, I(1)), guard,
+                                  try_(block(ex(call('!pick', V('z'), V(k))), self.mark()),
+                                       r.choice(('stop', 'undo')), block(self.mark(), aug('+', 'z', I(1)), ('cont',))),
+                                  self.mark(), ret(rv))
+                out += [decl('int', k, I(0)), loop]
             elif c == 9 and ctx['defeat']:
                 out.append(preempt(*self.stmts(depth - 1, ctx)))
             elif c == 10 and ctx['defeat']:
